@@ -209,6 +209,85 @@ def rule_r1_r2(ck, prog, cg, roles, batch=True):
                 else:
                     ck.holds('C02.R2', p.f, site + ':after-exporter-flush', p.n, 'exporter ForceFlush precedes the publication')
         if batch:
+            # ---- R11: a ticket is only published when everything the snapshot saw has been exported. On the paths on which a
+            # ticket is pending, either the count handed to Consume is the whole queue size, or the publication is behind an
+            # edge that establishes "nothing left" (a zero test of a value derived from the queue size).
+            ticket_vars = set()
+            for l in loads:
+                for p in g.points:
+                    if p.n is not None and p.ctx is l.ctx and p.n['k'] == 'declstmt':
+                        for d in p.n['decls']:
+                            if d.get('init') is not None and d['init'] >= 0 and l.n['i'] in set(p.f.subtree(d['init'])):
+                                ticket_vars.add(d['id'])
+
+            def ticket_zero_edge(a, b, lab):
+                if not lab or not isinstance(lab[0], int):
+                    return False
+                core, pol = norm_cond(lab[1], lab[0])
+                cn = strip_casts(lab[1], core)
+                if cn['k'] == 'ref' and cn.get('id') in ticket_vars:
+                    return (lab[2] if pol else not lab[2]) is False
+                c = comparison(lab[1], core)
+                if c and c[0] in ('==', '!=') and strip_casts(lab[1], c[1]).get('id') in ticket_vars and strip_casts(lab[1], c[2]).get('v') == 0:
+                    return (lab[2] if pol else not lab[2]) is (c[0] == '==')
+                return False
+
+            def nothing_left_edge(a, b, lab):
+                if not lab or not isinstance(lab[0], int):
+                    return False
+                core, pol = norm_cond(lab[1], lab[0])
+                truth = lab[2] if pol else (not lab[2])
+                c = comparison(lab[1], core)
+                subj = None
+                if c and c[0] in ('==', '!=') and strip_casts(lab[1], c[2]).get('v') == 0:
+                    subj, want = c[1], (c[0] == '==')
+                else:
+                    cn = strip_casts(lab[1], core)
+                    if cn['k'] == 'call' and strip_targs(cn.get('c', '')).endswith('CircularBuffer::empty'):
+                        return truth is True
+                    if cn['k'] == 'ref':
+                        subj, want = core, False
+                if subj is None:
+                    return False
+                for (sf, sn, sc) in origins(g, rd, lab[1], subj, a.ctx):
+                    for j in sf.subtree(sn['i']):
+                        m = sf.nodes[j]
+                        if m['k'] == 'call' and strip_targs(m.get('c', '')).rsplit('::', 1)[-1] in ('size', 'empty') and 'CircularBuffer' in strip_targs(m.get('c', '')):
+                            return truth is want
+                return False
+            rds = reaching_defs(g, skip_edge=ticket_zero_edge)
+            for c in g.calls('CircularBuffer::Consume'):
+                if not any(e.ctx is c.ctx for e in exports):
+                    continue
+                key = ('r11', c.f.key, c.n['i'])
+                if key in done:
+                    continue
+                done.add(key)
+                cnt = strip_casts(c.f, c.n['args'][0])
+                partial = None
+                if cnt['k'] == 'ref':
+                    for (v, d) in rds.get(c.id, ()):
+                        if v != cnt['id']:
+                            continue
+                        dp = g.points[d]
+                        for (vv, st, vx) in defs_in_node(dp.f, dp.n):
+                            if vv != cnt['id'] or vx is None:
+                                continue
+                            vn = strip_casts(dp.f, vx)
+                            whole = vn['k'] == 'call' and strip_targs(vn.get('c', '')).endswith('CircularBuffer::size')
+                            if not whole:
+                                partial = dp
+                if partial is None:
+                    ck.holds('C02.R11', c.f, 'publication-covers-snapshot', c.n, 'with a ticket pending the whole queue-size snapshot is consumed before the publication')
+                    continue
+                # a bounded chunk: every publication that follows it in the same cycle must be behind a "nothing left" edge
+                same_iter = g.reachable_from([q for (q, _l) in c.succ], avoid=[l for l in loads if l.ctx is c.ctx])
+                bad = [p for (p, _o) in pubs if p.id in same_iter and
+                       p.id in g.reachable_from([q for (q, _l) in c.succ], avoid=[l for l in loads if l.ctx is c.ctx], avoid_edges=nothing_left_edge)]
+                ck.verdict(not bad, 'C02.R11', c.f, 'publication-covers-snapshot', partial.n,
+                           'bounded chunks, and the publication is only reached once nothing is left' if not bad else
+                           'with a flush ticket pending only a bounded chunk of the queue is consumed, and the ticket is published right after that chunk: ForceFlush returns true while records that were queued before it began are still in the queue',
+                           path=None if not bad else g.describe_path(g.path(c, bad[0]) or []))
             # ---- R9 (termination, necessary condition): once the exporter has been flushed for a pending ticket the
             # publication must follow on every path; the only exempt exits are those taken because the notified
             # counter already covers the ticket (a comparison that reads the notified counter).
@@ -331,6 +410,63 @@ def rule_r4(ck, prog, f, rule='C02.R4', child_names=FLUSH_NAMES):
     return cnt
 
 
+def rule_r12(ck, prog, roles, rule='C02.R12'):
+    """the worker only leaves its loop on shutdown after the queue has been observed empty: every path from the edge on which the
+    shutdown latch reads true to the return of the thread entry passes an emptiness observation of the queue (the drain loop)"""
+    for t in sorted(roles.thread_entries):
+        tf = prog.funcs[t]
+        g = Graph(prog, tf, inline=same_class_inline(prog, roles.cls), max_depth=3)
+        rd = reaching_defs(g)
+        if not g.calls(EXPORTER_EXPORT):
+            continue
+
+        def latch_true(a, b, lab):
+            if not lab or not isinstance(lab[0], int):
+                return False
+            core, pol = norm_cond(lab[1], lab[0])
+            for (sf, sn, sc) in origins(g, rd, lab[1], core, a.ctx):
+                for j in sf.subtree(sn['i']):
+                    m = sf.nodes[j]
+                    o = atomic_op(m)
+                    if o and o[0] == 'load' and path_str(access_path(sf, m['obj'], sc)) == roles.latch:
+                        return (lab[2] if pol else not lab[2]) is True
+            return False
+
+        def queue_empty(a, b, lab):
+            if not lab or not isinstance(lab[0], int):
+                return False
+            core, pol = norm_cond(lab[1], lab[0])
+            truth = lab[2] if pol else (not lab[2])
+            cn = strip_casts(lab[1], core)
+            if cn['k'] == 'call' and strip_targs(cn.get('c', '')).endswith('CircularBuffer::empty'):
+                return truth is True
+            c = comparison(lab[1], core)
+            if c and c[0] in ('==', '!=') and strip_casts(lab[1], c[2]).get('v') == 0:
+                for (sf, sn, sc) in origins(g, rd, lab[1], c[1], a.ctx):
+                    for j in sf.subtree(sn['i']):
+                        m = sf.nodes[j]
+                        if m['k'] == 'call' and strip_targs(m.get('c', '')).endswith('CircularBuffer::size'):
+                            return truth is (c[0] == '==')
+            return False
+        starts = []
+        for p in g.points:
+            if p.ctx is not g.root_ctx:
+                continue
+            for (q, lab) in p.succ:
+                if latch_true(p, q, lab):
+                    starts.append(q)
+        if not starts:
+            ck.violation(rule, tf, 'worker-exit-drains', None, 'the worker loop never tests the shutdown latch')
+            continue
+        r = g.reachable_from(starts, avoid_edges=queue_empty)
+        # leaving the function without having seen the queue empty; the loop's own back edge is not an exit
+        bad = g.exit.id in r
+        ck.verdict(not bad, rule, tf, 'worker-exit-drains', starts[0].n,
+                   'after shutdown was observed the worker returns only behind an emptiness observation of the queue (drain)' if not bad else
+                   'after observing shutdown the worker can return without having seen the queue empty: a record queued after the last export and before the Shutdown request is never exported',
+                   path=None if not bad else g.describe_path(g.path(starts[0], g.exit, avoid_edges=queue_empty) or []))
+
+
 FANOUT_NAMES = ('ForceFlush', 'Shutdown')
 
 
@@ -357,6 +493,15 @@ def rule_r10(ck, prog, rule='C02.R10', prefix='opentelemetry::sdk::'):
             pts = [p for p in g.points if p.f is f and p.ctx is g.root_ctx and any(p.n is c for c in calls)]
             why = loop_visits_every_element(g, f, lp, pts)
             cnt += 1
+            if why is None and f.name in FLUSH_NAMES:
+                # a flush layer may only report success after the fan-out: a return that can be true must pass the loop header
+                header = [p for p in g.points if p.f is f and p.ctx is g.root_ctx and p.n is not None and
+                          p.n['i'] in (set(f.subtree(lp['i'])) - set(f.subtree(lp['body'])))]
+                r0 = g.reachable_from(g.entry, avoid=header)
+                early = [rp for rp in g.returns() if rp.id in r0 and rp.ctx is g.root_ctx and
+                         not (strip_casts(f, rp.n['e'])['k'] == 'lit' and not strip_casts(f, rp.n['e']).get('v'))]
+                if early:
+                    why = 'the function can return a value other than false without having entered the loop over its children (early return)'
             site = 'fanout:%s::%s' % (strip_targs(f.cls).rsplit('::', 1)[-1], f.name)
             ck.verdict(why is None, rule, f, site, calls[0], 'every child gets %s in every iteration; the loop runs to the end of the list' % f.name if why is None else
                        '%s — a child that comes later in the list is never %s' % (why, 'flushed' if f.name == 'ForceFlush' else 'shut down: its exporter keeps its queue and is never shut down'))
@@ -547,7 +692,9 @@ def run(ck, prog):
     ck.doc('C02.R7', 'batch OnEnd/OnEmit/ForceFlush: shutdown gate dominates every effectful event', 4)
     ck.doc('C02.R8', 'every condition-variable wait in these classes is timed', 5)
     ck.doc('C02.R9', 'after the exporter flush the ticket publication follows on every path (necessary for termination)', 2)
-    ck.doc('C02.R10', 'ForceFlush/Shutdown fan-out: every child is visited in every iteration, the loop is not left early', 6)
+    ck.doc('C02.R10', 'ForceFlush/Shutdown fan-out: every child is visited in every iteration, the loop is not left early, no success before the loop', 6)
+    ck.doc('C02.R11', 'a pending ticket is published only when the whole snapshot was consumed (whole-size count, or a nothing-left edge)', 2)
+    ck.doc('C02.R12', 'after observing shutdown the worker returns only behind an emptiness observation of the queue', 2)
     cg = CallGraph(prog)
 
     # ---- canaries
@@ -583,6 +730,7 @@ def run(ck, prog):
         c03.rule_r2(ck, prog, cg, roles, rule='C02.R6', which=EXPORTER_EXPORT + EXPORTER_FLUSH, what='Export/ForceFlush')
         rule_r7(ck, prog, roles, [producer, 'ForceFlush'])
         rule_r8(ck, prog, roles)
+        rule_r12(ck, prog, roles)
     pr = Roles(prog, 'sdk::metrics::PeriodicExportingMetricReader', flush_method='OnForceFlush',
                shutdown_method='OnShutDown', cg=cg)
     notified = rule_r1_r2(ck, prog, cg, pr, batch=False)
